@@ -77,6 +77,8 @@ Range(s) == {s[i] : i \in DOMAIN s}
 (*  relu(m)         max(0, m t), m >= 0                 kink at 0: [0, m]                                    *)
 (*  plus2(a)        a/2 max(0, t)^2                     one-sided quadratic                                  *)
 (*  vabs(a)         a/2 t|t|                            derivative a|t| (non-convex, a-smooth)               *)
+(*  wave(a)         a/2 (t+1/2)^2 (t <= -1/4), a/16 - a/2 t^2 (|t| <= 1/4), a/2 (t-1/2)^2 (t >= 1/4): a-smooth,   *)
+(*                  non-convex, THREE stationary points -1/2, 0, 1/2 with values 0, a/16, 0                  *)
 (*  ind(lo, hi)     indicator of [lo, hi]               normal cone, truncated to [-2, 2]                    *)
 (*  supp(lo, hi)    support function of [lo, hi]        max(lo t, hi t)                                      *)
 (*  rsi(mu, L)      odd derivative L t (|t| <= 1/2), linear from L/2 to mu on [1/2, 1], mu t beyond          *)
@@ -88,6 +90,7 @@ QK(a, s, dl) == Pc("qk", a, s, dl)
 Relu(m) == Pc("relu", m, Z, Z)
 Plus2(a) == Pc("plus2", a, Z, Z)
 VAbs(a) == Pc("vabs", a, Z, Z)
+Wave(a) == Pc("wave", a, Z, Z)
 Ind(lo, hi) == Pc("ind", lo, hi, Z)
 Supp(lo, hi) == Pc("supp", lo, hi, Z)
 Rsi(mu, L) == Pc("rsi", mu, L, Z)
@@ -114,6 +117,9 @@ PVal(pc, t) ==
     [] pc.t = "relu" -> IF RPos(t) THEN SMul(a, t) ELSE Z
     [] pc.t = "plus2" -> IF RPos(t) THEN RHalf(SMul(a, SSq(t))) ELSE Z
     [] pc.t = "vabs" -> RHalf(SMul(a, SMul(t, s)))
+    [] pc.t = "wave" -> IF SLeq(t, Q(-1, 4)) THEN RHalf(SMul(a, SSq(SAdd(t, Half))))
+                        ELSE IF SLeq(t, Q(1, 4)) THEN SSub(SMul(a, Q(1, 16)), RHalf(SMul(a, SSq(t))))
+                        ELSE RHalf(SMul(a, SSq(SSub(t, Half))))
     [] pc.t = "ind" -> Z
     [] pc.t = "supp" -> IF RGeq0(t) THEN SMul(b, t) ELSE SMul(a, t)
     [] pc.t = "rsi" -> RsiV(a, b, s)
@@ -129,6 +135,8 @@ PSub(pc, t) ==
     [] pc.t = "relu" -> IF RIsZ(t) THEN <<Z, a>> ELSE IF RPos(t) THEN pt(a) ELSE pt(Z)
     [] pc.t = "plus2" -> IF RPos(t) THEN pt(SMul(a, t)) ELSE pt(Z)
     [] pc.t = "vabs" -> pt(SMul(a, s))
+    [] pc.t = "wave" -> pt(IF SLeq(t, Q(-1, 4)) THEN SMul(a, SAdd(t, Half))
+                           ELSE IF SLeq(t, Q(1, 4)) THEN RNeg(SMul(a, t)) ELSE SMul(a, SSub(t, Half)))
     [] pc.t = "ind" -> IF a = b THEN <<RI(-2), Two>> ELSE IF t = a THEN <<RI(-2), Z>> ELSE IF t = b THEN <<Z, Two>> ELSE pt(Z)
     [] pc.t = "supp" -> IF RIsZ(t) THEN <<a, b>> ELSE IF RPos(t) THEN pt(b) ELSE pt(a)
     [] pc.t = "rsi" -> pt(SMul(SgnR(t), RsiG(a, b, s)))
@@ -227,6 +235,7 @@ MembersOf(cls, P) ==
          << Sep1("quad-1d-L", QAbs(L, Z), Half, Z), Sep1("concave-quad-1d", QAbs(RNeg(L), Z), Z, One),
             Sep1("quad-1d-half", QAbs(RHalf(L), Z), Z, Z), Sep1("const-1d", QAbs(Z, Z), Z, One),
             Sep1("x|x|-1d", VAbs(L), Z, Z), Sep1("huber-1d", QHub(Z, L, Half), Z, Z), Sep1("affine-1d", Aff(One), Z, Z),
+            Sep1("wave-1d", Wave(L), Z, Z),
             Sep2("saddle-diag-2d", QAbs(L, Z), QAbs(RNeg(L), Z), Z, Z, Z), QuadQ("saddle-45-2d", L, RNeg(L), Half, Z, Z),
             Sep2("x|x|+concave-2d", VAbs(L), QAbs(RNeg(RHalf(L)), Z), Z, Z, Z) >>
     [] cls = "SmoothConvexFunction" ->
